@@ -8,6 +8,7 @@ TECH_C04 = TECH + "; SIMD i64 kernels: Kani/CBMC bounded model checking of the c
 NOTE = ("trusted: rustc nightly MIR printer, the mirsym executor and its closed list of library models (printed in evidence), z3, "
         "the native replay driver; a pass means no counterexample within evidence.coverage.bounds, nothing outside them")
 CLAIMS = {
+ 'C11': ("durability-order clause only ('the order in which concurrent writes become durable is the order in which they took effect in memory'): SlabRouter::put_durable / delete_durable, with the real TensorWal behind the log mutex, apply a durable write in memory exactly once, after its record is in the log and while the log lock taken for that append is still held - a sufficient condition that rules out any second durable write being logged and applied in between; linearizability of the sharded maps (reads never see unwritten, mixed or stale values), scans, non-durable writes racing durable ones and the engines layered on top are not decided", "§4 C11"),
  'C19': ("reference-count kernel only (the clauses 'deleting one artifact never damages another that shares content' and 'only unreferenced chunks are collectable' at the level of the stored counts): BlobWriter::store_chunk, gc::{increment_chunk_refs, decrement_chunk_refs} and integrity::delete_artifact over the key/value contract of the store keep 'every stored chunk's count equals the number of references to it (artifact chunk lists plus a writer's stored chunks)' after one operation from every bounded state, and after two operations where one runs entirely inside a count read-modify-write window of the other; the collector (async), byte-exact reads, streaming, checksums, verify/repair and real hashing are not decided", "§4 C19"),
  'C05': ("adjacency bookkeeping of create_edge / delete_edge / delete_node (with add_edge_to_list, remove_edge_from_list, extract_edge_ids, get_edge, get_node) executed over the key/value contract of the store: one operation from every consistent graph of 2 (3) nodes and 0..2 edges (directed/undirected, self-loops, parallel edges) keeps 'every edge is listed by both endpoints in the right lists, every listed id is an existing edge touching the node, endpoints exist', deleting a node removes its edges; and two threads where one create_edge runs entirely inside the k-th adjacency read-modify-write window of the other's create_edge/delete_edge (k = 0..3) still leave a consistent graph; node/edge updates, traversal and neighbor queries, batch operations, other interleavings and more than two threads are not decided", "§4 C05"),
  'C18': ("priority-queue order of the weighted search only: DijkstraEntry::cmp is a total order over every f64 bit pattern, cheapest first, ties by id, partial_cmp consistent; the searches themselves are not decided", "§4 C18"),
@@ -28,7 +29,6 @@ CLAIMS = {
 }
 NA = {
  'C08': "whole-database equality across blob store, snapshot bytes, slabs and router (DESIGN §5)",
- 'C11': "pure concurrency property of sharded maps; the technique has no scheduler (DESIGN §5)",
  'C14': "BFS over GraphEngine plus AES-GCM/HMAC/Argon2; not an SMT question (DESIGN §5)",
 }
 checks = []
@@ -46,8 +46,8 @@ for p in props:
     na.append({"property_id": p['id'], "reason": NA.get(p['id'], "check not built yet in this session (planned, see DESIGN.md §4)")})
 man = {
  "version": 1, "setup_cmd": "./setup.sh",
- "hooks": {"guard": "neumann_verif", "enable": "cargo feature neumann_verif on tensor_chain, relational_engine, graph_engine, tensor_blob (read-only accessors / wrappers used by the native replay driver /verif/replay and the Kani crate /verif/kani; the MIR dump needs no hooks)",
-           "baseline_off_cmd": "cd /repo && CARGO_NET_OFFLINE=true cargo nextest run --workspace --no-fail-fast --test-threads 8 --offline", "source_commits": ["80aaab17", "4d5c4419", "8f6898ea", "2dbd5f78", "a50099c1", "2ded86bb", "af699de5", "6914ab45", "96dddefb"], "add_only": True},
+ "hooks": {"guard": "neumann_verif", "enable": "cargo feature neumann_verif on tensor_chain, relational_engine, graph_engine, tensor_blob, tensor_store (read-only accessors / wrappers used by the native replay driver /verif/replay and the Kani crate /verif/kani; the MIR dump needs no hooks)",
+           "baseline_off_cmd": "cd /repo && CARGO_NET_OFFLINE=true cargo nextest run --workspace --no-fail-fast --test-threads 8 --offline", "source_commits": ["80aaab17", "4d5c4419", "8f6898ea", "2dbd5f78", "a50099c1", "2ded86bb", "af699de5", "6914ab45", "96dddefb", "f52b3ed6"], "add_only": True},
  "engines": [{"name": "mirsym", "path": "/verif/mirsym", "serves_properties": sorted(CLAIMS),
               "kind_free_text": "symbolic execution of the MIR rustc prints for the current tree; z3 decides every path obligation; native replay driver (/verif/replay) for translator validation and counterexample confirmation"},
              {"name": "kani", "path": "/verif/kani", "serves_properties": ["C04"], "kind_free_text": "Kani 0.68 / CBMC harnesses over the compiled relational_engine SIMD kernels (feature neumann_verif), unwinding assertions and cover checks on"}],
